@@ -1,8 +1,11 @@
 (** C12 (Dynamic cache: one informer per watched kind, released with its last owner): property theorems.
     This file contains statements only; every proof is `exact <lemma>`.
 
-    Models (theories/Cache.v): [run]/[step]/[exec] follow internal/dynamiccache/cache.go as it is;
-    [Cache_fixed.run]/[.step] is the repair candidate fixes/C12-watch-rollback.diff.  Operation
+    Models (theories/Cache.v): [run]/[step]/[exec] follow internal/dynamiccache/cache.go as it was up to
+    the repair of F-C12 ("the code as it is" in the comments below refers to that revision);
+    [Cache_fixed.run]/[.step] follows fixes/C12-watch-rollback.diff, which has since been applied to the
+    repository (commit 95ce509), i.e. Cache_fixed is the model of the current cache.go.  The check
+    decides on every run which of the two the implementation follows (F-C12 witness sequence).  Operation
     sequences are arbitrary lists of Watch/Free/Get/List/OwnersForGKV over any owners and kinds; every
     call carries an adversarially chosen outcome (informerMap.Get fails before or after starting the
     informer, the k-th handler registration fails, informerMap.Delete fails) and every Free an arbitrary
@@ -143,6 +146,77 @@ Theorem C12_events_faithful :
     stepf fixed s x = (s', o') -> replay g (o_events o') (lookup g (infs s)) = lookup g (infs s').
 Proof. exact events_faithful. Qed.
 Print Assumptions C12_events_faithful.
+
+(** ** Clause "these guarantees hold when watch, free and read calls race" *)
+
+(** In the model a call is one atomic step (the critical section of informerReferencesMux), and the
+    clauses above hold after every sequence of steps, hence after every interleaving of the steps of any
+    number of concurrent callers.  Whether a call of the implementation IS atomic - whether the mutex is
+    held from the first look at informerReferences to the last use of the informer - is not a statement
+    about the model; it is tested by the overlapping-call runs (checks/C12.py, harness mode cacheoverlap),
+    which hold one call inside an informer-map call, start others meanwhile, and require the joint outcome
+    to be one the model produces for some serial order ([lin_agree]). *)
+Theorem C12_any_interleaving_of_atomic_steps_keeps_invariant :
+  forall handlers ps ops g,
+    interleaving ps ops ->
+    Forall (fun p => no_delete_failures p = true) ps ->
+    let s := Cache_fixed.run (init handlers) ops in
+    (running s g <-> owned s g) /\ (running s g -> all_handlers s g) /\ NoDup (owners s g).
+Proof. exact any_interleaving_of_atomic_steps_keeps_invariant. Qed.
+Print Assumptions C12_any_interleaving_of_atomic_steps_keeps_invariant.
+
+(** For the revision before the repair: missing are interleavings in which an informer start fails. *)
+Theorem C12_any_interleaving_of_atomic_steps_keeps_invariant_partial :
+  forall handlers ps ops g,
+    interleaving ps ops ->
+    Forall (fun p => no_start_failures p = true) ps ->
+    Forall (fun p => no_delete_failures p = true) ps ->
+    let s := run (init handlers) ops in
+    (running s g <-> owned s g) /\ (running s g -> all_handlers s g) /\ NoDup (owners s g).
+Proof. exact any_interleaving_of_atomic_steps_keeps_invariant_partial. Qed.
+Print Assumptions C12_any_interleaving_of_atomic_steps_keeps_invariant_partial.
+
+Example C12_interleaving_exists :
+  interleaving [[Watch 0 0 ok; Free 0 ok []]; [Get 0; Watch 1 0 ok]]
+               [Watch 0 0 ok; Get 0; Free 0 ok []; Watch 1 0 ok].
+Proof. exact interleaving_example. Qed.
+Print Assumptions C12_interleaving_exists.
+
+(** The linearizability judge accepts every serial execution of the model: the calls run atomically in
+    the listed order (any other order: [lin_search_pick]), Free visiting the kinds in one of the orders
+    the judge tries. *)
+Theorem C12_lin_search_accepts_model :
+  forall fixed kinds final ops s,
+    Forall (fun x => In x (cands kinds x)) ops ->
+    final (snd (calls_of fixed s ops)) = true ->
+    lin_search (length ops) fixed kinds final s (fst (calls_of fixed s ops)) = true.
+Proof. exact lin_search_accepts_model. Qed.
+Print Assumptions C12_lin_search_accepts_model.
+
+(** ... and it is not vacuous: for Get g overlapping Free of the last owner of g it accepts both serial
+    outcomes and rejects "Free stopped the informer between Get's check and Get's informerMap.Get, which
+    then started a new informer" - an informer nobody owns, without handlers. *)
+Example C12_lin_rejects_get_free_race :
+  let pre := steps_of true [0; 1] (init [0; 1]) [Watch 0 0 ok] in
+  judge_lin ([0; 1], [0; 1], pre,
+             [(Get 0, CObs ErrNone [EGet 0 true; EStart 0] None);
+              (Free 0 ok [], CObs ErrNone [EDelete 0 true; EStop 0] None)],
+             [(0, None); (1, None)], [(0, Some []); (1, None)]) = (false, false, false).
+Proof. exact lin_rejects_get_free_race. Qed.
+Print Assumptions C12_lin_rejects_get_free_race.
+
+Example C12_lin_accepts_serial_orders :
+  let pre := steps_of true [0; 1] (init [0; 1]) [Watch 0 0 ok] in
+  judge_lin ([0; 1], [0; 1], pre,
+             [(Get 0, CObs ErrNone [EGet 0 true] None);
+              (Free 0 ok [], CObs ErrNone [EDelete 0 true; EStop 0] None)],
+             [(0, None); (1, None)], [(0, None); (1, None)]) = (true, true, true) /\
+  judge_lin ([0; 1], [0; 1], pre,
+             [(Get 0, CObs ErrNotStarted [] None);
+              (Free 0 ok [], CObs ErrNone [EDelete 0 true; EStop 0] None)],
+             [(0, None); (1, None)], [(0, None); (1, None)]) = (true, true, true).
+Proof. exact (conj lin_accepts_get_then_free lin_accepts_free_then_get). Qed.
+Print Assumptions C12_lin_accepts_serial_orders.
 
 (** ** The run-time monitor used on the implementation's observations accepts every behaviour of the
     model of the code as it is on start-failure-free sequences, and every behaviour of the repair
